@@ -95,12 +95,10 @@ def setConf' (s : St α) (c : α) : St α × Out α :=
   if Num.lt (Num.ofNat 1) c || Num.lt c (Num.ofNat 0) then (s, .rejected)
   else ({ s with conf := c, cMode := none }, .ok)
 
-/-- `MonteCarloEvaluator.evaluate` -/
-def evaluate (w : World α) (s0 : St α) : St α × Out α :=
-  let s := ensure s0
-  let id := s.sim.getD 0
+/-- `MonteCarloEvaluator.evaluate` once a simulation `id` is stored -/
+def evalCore (w : World α) (s0 : St α) (id : Nat) : St α × Out α :=
   -- a custom strategy without a stored custom pair falls back to mean-and-std
-  let s := if s.strategy = .custom ∧ s.cCustom.isNone then { s with strategy := .meanStd } else s
+  let s := if s0.strategy = .custom ∧ s0.cCustom.isNone then { s0 with strategy := .meanStd } else s0
   match s.strategy with
   | .meanStd =>
     let p := match s.cMean with | some p => p | none => meanOf w s.range id
@@ -111,6 +109,11 @@ def evaluate (w : World α) (s0 : St α) : St α × Out α :=
   | .custom =>
     let p := s.cCustom.getD (Num.ofNat 0, Num.ofNat 0)
     (s, .pair p.1 p.2)
+
+/-- `MonteCarloEvaluator.evaluate`: `regenerate_samples`, then the strategy dispatch with caching -/
+def evaluate (w : World α) (s0 : St α) : St α × Out α :=
+  let s := ensure s0
+  evalCore w s (s.sim.getD 0)
 
 def step (w : World α) (s : St α) : Op α → St α × Out α
   | .setSize k =>
